@@ -369,6 +369,9 @@ func (e *Engine) call(fn *ssa.Function, s *St, in *ssa.Call, ip int) (next []suc
 		return set(IntV{s.height})
 	case ipfx + "native/neo.BalanceOf":
 		return set(IntV{I(0)}) // the test contracts hold no NEO: no GAS is claimed
+	case ipfx + "native/neo.Vote": // the native NEO state is not modelled: an arbitrary outcome
+		e.fresh++
+		return set(BoolV{Var(fmt.Sprintf("neoVote%d", e.fresh), 'B')})
 	case ipfx + "native/neo.Transfer":
 		return set(BoolV{tTrue})
 	case ipfx + "native/roles.GetDesignatedByRole":
